@@ -230,6 +230,19 @@ def run(prog, check):
         check.saw(rf_)
         check.ob('C08.R3', '%s::flow-registration-always-recorded' % rf_.key, ok_, rf_.where, why_, 'a flow registered by a sector that is processed before the sector creating the amount variable')
     check.floor('C08.R3', 5)
+    # ---- R1 (c): the income-exclusion registry is read whenever a flow is booked - by whichever object's generation runs
+    # first; an entry made during a generation method exists or not depending on that order
+    n_ex = 0
+    for ci, m, it in units:
+        for e in it.effects:
+            if e.kind == 'exclusion':
+                n_ex += 1
+                ok_x = e.phase != 'gen'
+                check.ob('C08.R1', '%s::%s::exclusion-registered-at-construction(%s)' % (e.where.split(':')[0], ci.name, e.args[1].show() if hasattr(e.args[1], 'show') else e.args[1]),
+                         ok_x, e.where,
+                         'the exclusion is registered when the sector is created: every generation method sees it' if ok_x else
+                         'the exclusion is registered during the generation method: a market generated before this sector books the flow as income',
+                         'the goods market declared before / after the household')
     # ---- R2 ----------------------------------------------------------------------------------------
     n2 = 0
     for ci, m, it in units:
